@@ -29,6 +29,8 @@ CONSTANTS NA, NB,            \* inline capacities of the slots
           Copyable, NothrowMove,                    \* element flavour
           AllocIds,          \* allocator ids handed to constructors ({0}: default only)
           Pairs,             \* impl profiles: also explore every PAIR of throw points (second fault inside roll-back code)
+          PrintFrom,         \* stimuli are printed only for transitions taken after at least this many calls (0: all; simulation
+                             \* runs set it to the behaviour length, where only the last calls are turned into stimuli)
           Kinds              \* range kinds to use (0 input 1 fwd 2 bidir 3 random 4 ptr 5 move_iterator 6 container iterators 7 fwd / 8 input over construct-only sources)
 
 VARIABLES st, hist, everBig, allocCount
@@ -452,7 +454,7 @@ Take(o, ln, extra) ==
                    \/ StepClosed(NOf(cfg, c), cfg.max, StepClass(o.op), shp(st, c)[1], shp(st, c)[2], shp(st, c)[3], shp(post, c)[1], shp(post, c)[2], shp(post, c)[3])
   IN /\ Assert(bad = {}, <<"policy / L2 violates the contract", o, ln.k, bad>>)
      /\ Assert(stepOK("A") /\ stepOK("B"), <<"a transition is not a step of ShapeInd (spec/ShapeRel.tla)", o, ln.k>>)
-     /\ PrintT(<<"S", hist, OpTuple(o), ln.out>>)
+     /\ (Len(hist) >= PrintFrom => PrintT(<<"S", hist, OpTuple(o), ln.out>>))
      /\ st' = Norm(post)
      /\ hist' = Append(hist, OpTuple(o))
      /\ allocCount' = allocCount + Len(Allocs(ln.evs))
